@@ -1,9 +1,19 @@
-"""C10 — roughness lengths: formulas, NaN-or-positive Janssen estimate; Charnock implicit equation bounded.
+"""C10 — roughness lengths: formulas, NaN-or-positive Janssen estimate, exit contract of the fixed-point solver behind the Charnock roughness.
 
 Proved: drag_coefficient = (kappa/ln(z/z0))^2, roughness_wu positive with its closed form, _charnock_relation_point (capped
-Charnock relation), _roughness_estimate_point returns NaN or exp(.) > 0 on every return path.
-Bounded (never counted as proved): fixed_point_iteration / charnock_roughness_length(_from_u10) / drag_coefficient_charnock are
-xarray + `global` code outside the verified subset; the implicit equation is checked at the returned value on the real functions."""
+Charnock relation), _roughness_estimate_point returns NaN or exp(.) > 0 on every return path, the stress balance handed to the root finder.
+tools/solvers.py::fixed_point_iteration (numpy input: 1-d array of any length with possibly-NaN cells, any function that maps missing cells
+to missing cells, bounds none / lower / both, default configuration or any field values), by a loop invariant and a counting lemma:
+  * left through `break` with fraction_of_points == 1: every cell with a finite guess passes the convergence test against the previous
+    iterate p and equals clamp(function(p)) -- an approximate fixed point of the clamped function (backward-error form);
+  * cells with a missing guess are returned missing on every exit;
+  * loop exhausted: ValueError iff error_if_not_converged, otherwise every cell is NaN or passed the test in the last iteration;
+  * the module-level `_iteration_depth` counter is restored on normal exits.
+wavephysics/roughness.py::charnock_roughness_length_from_u10 (numpy input) uses that contract at its call site: the iterated function is
+z -> alpha (kappa U / ln(10/z))^2 / g + [u* > 0] c nu / u*, it maps missing to missing, bounds (0, inf); on the converged exit the returned
+roughness is that relation at a point within 1e-4 (absolute and relative) of it; missing wind speeds give missing roughness.
+Bounded (never counted as proved): that the iteration converges, hence the residual of the implicit equation at the *returned* value,
+monotonicity, and everything on DataArray / scalar inputs (drag_coefficient_charnock wraps its input in a DataArray: xarray path of the solver)."""
 from fractions import Fraction
 from pyvc.api import *
 from pyvc.api import CalleeContract
@@ -240,6 +250,489 @@ estimate_wiring = Contract(
 )
 
 
+# ------------------------------------------------------------------ the fixed-point solver behind the Charnock roughness
+import z3 as _z3
+import pyvc.models.log    # noqa  (loggers: no modelled effect)
+from pyvc.loops import LoopContract
+
+S = "tools/solvers.py::"
+SOLVERS_MODULE = "ocean_science_utilities.tools.solvers"
+CFG_DEFAULT = {"atol": Fraction(1, 10000), "rtol": Fraction(1, 10000), "max_iter": 100, "aitken_acceleration": True, "fraction_of_points": 1,
+               "error_if_not_converged": False}
+
+
+class ArrayFn:
+    """`function`: an arbitrary function from arrays to arrays of the same length (a fresh, unconstrained result at every call) with ONE
+    hypothesis: a cell that is NaN in the argument is NaN in the result (missing in -> missing out).  The last call is recorded (ghost)."""
+
+    def __call__(self, interp, st, args, kwargs):
+        x = st.deref(args[0])
+        if not isinstance(x, _Arr) or x.ndim != 1 or len(args) != 1 or kwargs:
+            raise _T.Unsupported("function model: one 1-d array argument")
+        f = _z3.Function(_T.Fresh.name("function_value"), _T.IntS, _T.RealS)
+        g = _z3.Function(_T.Fresh.name("function_nan"), _T.IntS, _T.BoolS)
+        res = _Arr(x.shape, lambda ix, x=x, f=f, g=g: _T.xr(f(_T.to_z3(ix[0])), _T.lor(_T.xnan(x.get(ix)), g(_T.to_z3(ix[0])))), (), "real", "function_result")
+        st.ghost["function_call"] = (x, res)
+        st.ghost["function_calls"] = st.ghost.get("function_calls", 0) + 1
+        return st.alloc(res, "function_result")
+
+
+def _cfg(c, name):
+    """field of the configuration (the defaults of the dataclass when none / a default-constructed one is used)"""
+    if c is None:
+        return CFG_DEFAULT[name]
+    try:
+        return getattr(c, name)
+    except AttributeError:
+        return CFG_DEFAULT[name]
+
+
+def _p_fpi(bounds, config):
+    def p(mk):
+        n = mk.size("n")
+        d = {"function": ArrayFn(), "guess": mk.array("guess", (n,), "xreal")}
+        if bounds == "lower":
+            d["bounds"] = (mk.real("lower_bound"), _T.INF)
+        elif bounds == "both":
+            d["bounds"] = (mk.real("lower_bound"), mk.real("upper_bound"))
+        d["configuration"] = None if config == "default" else mk.obj("configuration", "Configuration", {
+            "atol": "real", "rtol": "real", "max_iter": "int", "aitken_acceleration": "bool",
+            "fraction_of_points": "real", "error_if_not_converged": "bool"})
+        mk.st.globals[(SOLVERS_MODULE, "_iteration_depth")] = mk.int("iteration_depth_before")      # module-level counter: any value on entry
+        return d
+    return p
+
+
+def _finite_or_nan(v):
+    """the value is NaN or a finite real (no infinity).  In the symbolic model this is the standing assumption (DESIGN 2.3: every real other than
+    the literal np.inf is finite, so it evaluates to True); it is a genuine precondition of the executable twin"""
+    from pyvc import lib as _lib
+    if isinstance(v, _T.XR):
+        return Or(v.nan, _lib._finite_plain(v.v))
+    if is_symbolic(v):
+        return _lib._finite_plain(v)          # np.isfinite of the library model (v != inf)
+    import math
+    return not math.isinf(v)
+
+
+def _conv_test(x, p, atol, rtol):
+    """the solver's convergence test between the new iterate x and the previous one p (false when either is NaN)"""
+    d = absv(valof(x) - valof(p))
+    ap = absv(valof(p))
+    return And(notnan(x), notnan(p), d < atol, d / If(ap >= atol, ap, atol) < rtol)
+
+
+def _clamp(v, p, bounds):
+    """the solver's bounds step (symbolic values): a value at or below the finite lower bound (above the finite upper bound) is replaced
+    by the midpoint of the previous iterate p and the bound; comparisons with NaN are false, so a NaN value is kept"""
+    lo, hi = bounds
+    half = Fraction(1, 2)
+    if not (_T.is_sym(lo) and lo.eq(_T.NINF)):
+        v = _T.ite(_T.cmp("<=", v, lo), _T.add(_T.mul(_T.sub(lo, p), half), p), v)
+    if not (_T.is_sym(hi) and hi.eq(_T.INF)):
+        v = _T.ite(_T.cmp(">", v, hi), _T.add(_T.mul(_T.sub(hi, p), half), p), v)
+    return v
+
+
+def _cell(arr, e):
+    return arr.get((e,))
+
+
+def _len(x):
+    return x.n if hasattr(x, "n") else len(x)
+
+
+def _fpi_bounds(a):
+    return a.bounds if "bounds" in a else (_T.NINF, _T.INF)
+
+
+def _inv_nan_stays(ns):
+    g, it = ns.guess, ns.iterates
+    return forall(0, g.n, lambda e: implies(isnan(g[e]), isnan(it[2][e])))
+
+
+def _inv_converged_means_test(ns):
+    it, c = ns.iterates, ns.configuration
+    atol, rtol = _cfg(c, "atol"), _cfg(c, "rtol")
+    return forall(0, ns.guess.n, lambda e: implies(ns.converged[e], _conv_test(it[2][e], it[1][e], atol, rtol)))
+
+
+FPI_LOOP = LoopContract(invariant=[("missing_guess_cells_stay_missing", _inv_nan_stays),
+                                   ("converged_flags_imply_the_convergence_test_between_the_last_two_iterates", _inv_converged_means_test)])
+
+
+def _fpi_exit(a):
+    return a._ghost.get("inv1.exit")
+
+
+# ---- executable twin (witnesses on the real function): the function is wrapped so that its calls are recorded
+class _NativeRun:
+    def __init__(self, result, calls, depth_before, depth_after):
+        self.result, self.calls, self.depth_before, self.depth_after = result, calls, depth_before, depth_after
+
+    def __repr__(self):
+        return f"result={self.result!r} function_calls={len(self.calls)} depth {self.depth_before}->{self.depth_after}"
+
+
+def _fpi_native_call(kwargs, inst):
+    import numpy as np
+    from ocean_science_utilities.tools import solvers
+    calls, f = [], kwargs["function"]
+
+    def recording(x):
+        y = f(x)
+        calls.append((np.array(x, dtype="float64", copy=True), np.array(y, dtype="float64", copy=True)))
+        return y
+    kw = dict(kwargs, function=recording)
+    d0 = solvers._iteration_depth
+    try:
+        res = solvers.fixed_point_iteration(**kw)
+    except Exception:
+        solvers._iteration_depth = d0        # (the counter is not restored on exceptional exits: outside the clauses)
+        raise
+    return _NativeRun(np.asarray(res, dtype="float64"), calls, d0, solvers._iteration_depth)
+
+
+def _n_cfg(a, name):
+    c = a.configuration if "configuration" in a else None
+    return CFG_DEFAULT[name] if c is None else getattr(c, name)
+
+
+def _n_test(x, p, atol, rtol):
+    import numpy as np
+    with np.errstate(all="ignore"):
+        d = np.abs(x - p)
+        return (d < atol) & (d / np.maximum(np.abs(p), atol) < rtol)
+
+
+def _n_clamp(v, p, bounds):
+    import numpy as np
+    lo, hi = bounds
+    with np.errstate(all="ignore"):
+        if np.isfinite(lo):
+            v = np.where(v <= lo, (lo - p) * 0.5 + p, v)
+        if np.isfinite(hi):
+            v = np.where(v > hi, (hi - p) * 0.5 + p, v)
+    return v
+
+
+def _n_converged_exit(a, R):
+    """every finite-guess cell returned non-NaN: the loop was left by `break` (or every cell passed the test in the last iteration)"""
+    import numpy as np
+    fin = np.isfinite(a.guess)
+    return bool(np.all(~np.isnan(R.result[fin])))
+
+
+def _native_converged(a, R):
+    import numpy as np
+    if float(_n_cfg(a, "fraction_of_points")) != 1.0 or not _n_converged_exit(a, R):
+        return True
+    if not R.calls:
+        return not np.isfinite(a.guess).any() and int(_n_cfg(a, "max_iter")) <= 0
+    if _n_cfg(a, "aitken_acceleration") and int(_n_cfg(a, "max_iter")) % 3 == 0:
+        return True          # an exhausted loop whose last step was an Aitken step is not told apart natively: not sampled
+    prev, fprev = R.calls[-1]
+    fin = np.isfinite(a.guess)
+    bounds = a.bounds if "bounds" in a else (-np.inf, np.inf)
+    ok = _n_test(R.result, prev, float(_n_cfg(a, "atol")), float(_n_cfg(a, "rtol"))) & np.isclose(R.result, _n_clamp(fprev, prev, bounds), rtol=1e-12, atol=0, equal_nan=True)
+    return bool(np.all(ok[fin]))
+
+
+def _native_exhausted(a, R):
+    import numpy as np
+    if _n_converged_exit(a, R) or not R.calls or (_n_cfg(a, "aitken_acceleration") and int(_n_cfg(a, "max_iter")) % 3 == 0):
+        return True
+    prev = R.calls[-1][0]
+    ok = np.isnan(R.result) | _n_test(R.result, prev, float(_n_cfg(a, "atol")), float(_n_cfg(a, "rtol")))
+    return bool(np.all(ok)) and not _n_cfg(a, "error_if_not_converged")
+
+
+def _post_converged_exit(a, r):
+    """loop left through `break` with fraction_of_points == 1: every cell whose guess is finite is an approximate fixed point"""
+    if isinstance(r, _NativeRun):
+        return _native_converged(a, r)
+    if _fpi_exit(a) != "break":
+        return True
+    if "function_call" not in a._ghost:
+        return False                 # left through `break` after a step that did not apply the function (Aitken extrapolation)
+    prev, fprev = a._ghost["function_call"]
+    c = a.configuration
+    atol, rtol, frac = _cfg(c, "atol"), _cfg(c, "rtol"), _cfg(c, "fraction_of_points")
+    bounds = _fpi_bounds(a)
+
+    def cell(e):
+        x, p = r[e], _cell(prev, e)
+        return implies(notnan(a.guess[e]), And(_conv_test(x, p, atol, rtol), eq(x, _clamp(_cell(fprev, e), p, bounds))))
+    return implies(eq(frac, 1), forall(0, a.guess.n, cell))
+
+
+def _post_missing(a, r):
+    if isinstance(r, _NativeRun):
+        import numpy as np
+        return bool(np.all(np.isnan(r.result[np.isnan(a.guess)])))
+    return forall(0, a.guess.n, lambda e: implies(isnan(a.guess[e]), isnan(r[e])))
+
+
+def _post_exhausted(a, r):
+    """loop exhausted (for-else), errors off: a cell is NaN unless it passed the convergence test in the last iteration"""
+    if isinstance(r, _NativeRun):
+        return _native_exhausted(a, r)
+    if _fpi_exit(a) != "exhausted":
+        return True
+    c = a.configuration
+    it = a._ghost["locals"]["iterates"]
+    prev = a._snap.deref(a._snap.deref(it)[1])
+    return And(Not(_cfg(c, "error_if_not_converged")),
+               forall(0, a.guess.n, lambda e: Or(isnan(r[e]), _conv_test(r[e], _cell(prev, e), _cfg(c, "atol"), _cfg(c, "rtol")))))
+
+
+def _post_depth(a, r):
+    if isinstance(r, _NativeRun):
+        return r.depth_after == r.depth_before
+    return eq(a._snap.globals[(SOLVERS_MODULE, "_iteration_depth")], _z3.Int("iteration_depth_before"))
+
+
+def _post_length(a, r):
+    if isinstance(r, _NativeRun):
+        return tuple(r.result.shape) == tuple(a.guess.shape)
+    return eq(r.n, a.guess.n)
+
+
+def _fpi_witnesses():
+    import numpy as np
+    from ocean_science_utilities.tools.solvers import Configuration
+    nan = float("nan")
+    U = np.array([0.5, 7.0, nan, 25.0, 60.0])
+
+    def charnock(z):
+        with np.errstate(all="ignore"):
+            us = 0.4 * U / np.log(10.0 / z)
+            return 0.012 * us ** 2 / 9.81 + np.where(us > 0, 0.11 * 1.48e-5 / us, 0.0)
+    half = lambda x: 0.5 * x + 1.0
+    slow = lambda x: 0.999 * x + 1.0
+    out = [("unbounded,default", {"function": half, "guess": np.array([0.0, 10.0, nan, -3.0])}),
+           ("unbounded,default", {"function": np.cos, "guess": np.array([nan, 0.3, 1.0])}),
+           ("unbounded,default", {"function": half, "guess": np.array([nan, nan])}),
+           ("lower,default", {"function": charnock, "guess": 10.0 / np.exp(0.4 / np.sqrt((0.8 + 0.065 * U) / 1000)), "bounds": (0, np.inf)}),
+           ("both,default", {"function": half, "guess": np.array([0.0, nan, 1.9]), "bounds": (-1.0, 1.75)}),
+           ("unbounded,record", {"function": slow, "guess": np.array([0.0, nan, 1000.0]), "configuration": Configuration(max_iter=7)}),
+           ("unbounded,record", {"function": slow, "guess": np.array([0.0, 1.0]), "configuration": Configuration(max_iter=5, error_if_not_converged=True)}),
+           ("unbounded,record", {"function": half, "guess": np.array([0.0, nan, 5.0]), "configuration": Configuration(aitken_acceleration=False, atol=1e-8, rtol=1e-8)}),
+           ("lower,record", {"function": half, "guess": np.array([4.0, nan]), "bounds": (1.0, np.inf), "configuration": Configuration(max_iter=0)})]
+    return out
+
+
+N_FPI_WITNESSES = 9
+
+
+FPI_INST = [(f"{b},{c}", _p_fpi(b, c)) for b in ("unbounded", "lower", "both") for c in ("default", "record")]
+import os as _os
+if _os.environ.get("C10_FPI_ONLY"):          # debugging aid: restrict the solver contract to one instance
+    FPI_INST = [x for x in FPI_INST if x[0] == _os.environ["C10_FPI_ONLY"]]
+fixed_point = Contract(
+    S + "fixed_point_iteration", instances=FPI_INST,
+    requires=[("nonempty", lambda a: _len(a.guess) >= 1),
+              ("guess_cells_are_finite_or_missing", lambda a: forall(0, _len(a.guess), lambda e: _finite_or_nan(a.guess[e]))),],
+    ensures=[("converged_exit_every_finite_guess_cell_is_an_approximate_fixed_point_of_the_clamped_function", _post_converged_exit),
+             ("missing_guess_cells_are_returned_missing", _post_missing),
+             ("exhausted_exit_returns_nan_or_cells_that_passed_the_convergence_test_and_only_when_errors_are_off", _post_exhausted),
+             ("iteration_depth_counter_restored", _post_depth),
+             ("result_has_the_length_of_the_guess", _post_length)],
+    raises={"ValueError": lambda a: And(("configuration" in a) and a.configuration is not None, _cfg(a.configuration if "configuration" in a else None, "error_if_not_converged"))},
+    options={"loop_invariants": {lab: {1: FPI_LOOP} for lab, _ in FPI_INST}, "expose_locals": True, "sum_monotone": True, "native_call": _fpi_native_call},
+    witness=[(lambda k=k: _fpi_witnesses()[k]) for k in range(N_FPI_WITNESSES)],
+)
+fixed_point.loops = {1: FPI_LOOP}
+
+
+# ------------------------------------------------------------------ Charnock roughness from U10 (numpy input): the solver's exit contract at its call site
+import pyvc.models.xr   # noqa  (charnock_roughness_length wraps its argument in a DataArray)
+NU_AIR, GRAV = Fraction(37, 2500000), Fraction(981, 100)
+
+
+def _cells_of(st, v):
+    """e -> possibly-NaN cell of a 1-d numpy array or DataArray value of the symbolic run"""
+    d = st.deref(v)
+    if hasattr(d, "fields") and getattr(d, "cls", None) == "DataArray":
+        arr, nan = d.fields["arr"], d.fields["nan"]
+        return lambda e: _T.xr(arr.get((e,)), nan.get((e,)) if nan is not None else False)
+    return lambda e: d.get((e,))
+
+
+def _fpi_at_charnock_call(mk, a):
+    """fixed_point_iteration as proved above (instance lower,default), used at the call in charnock_roughness_length_from_u10:
+    its preconditions and the hypothesis on `function` are obligations here; its postconditions are assumed for a result array,
+    the previous iterate `z` (exists by the proved postcondition: the argument of the last call of `function`) and the exit taken."""
+    st, interp, ctx = mk.st, mk.interp, mk.ctx
+    g = st.deref(a.guess)
+    lo, hi = a.bounds
+    if not (isinstance(g, _Arr) and g.ndim == 1 and a.configuration is None and _T.is_sym(hi) and hi.eq(_T.INF) and not _T.is_sym(lo)):
+        raise _T.Unsupported("fixed_point_iteration call outside the proved instance (1-d numpy guess, bounds (finite, inf), default configuration)")
+    n = g.shape[0]
+    ctx.oblige(st, "pre.fixed_point_iteration.nonempty", _T.cmp(">=", n, 1))
+    ctx.oblige(st, "pre.fixed_point_iteration.guess_cells_are_finite_or_missing", forall(0, n, lambda e: _finite_or_nan(g.get((e,)))))
+    # hypothesis on the function: a missing cell of the argument is a missing cell of the result -- for an arbitrary argument array
+    zref = mk.array("previous_iterate", (n,), "xreal")
+    z = st.deref(zref)
+    Fz = _cells_of(st, interp.call(st, a.function, [zref], {}))
+    ctx.oblige(st, "pre.fixed_point_iteration.function_maps_missing_cells_to_missing_cells", forall(0, n, lambda e: implies(isnan(z.get((e,))), isnan(Fz(e)))))
+    rref = mk.array("solver_result", (n,), "xreal")
+    r = st.deref(rref)
+    conv = mk.bool("solver_left_by_convergence")
+    atol, rtol = CFG_DEFAULT["atol"], CFG_DEFAULT["rtol"]
+    st.assume(_T.to_z3(forall(0, n, lambda e: implies(isnan(g.get((e,))), isnan(r.get((e,)))))))
+    st.assume(_T.to_z3(implies(conv, forall(0, n, lambda e: implies(notnan(g.get((e,))), And(
+        _conv_test(r.get((e,)), z.get((e,)), atol, rtol), eq(r.get((e,)), _clamp(Fz(e), z.get((e,)), (lo, hi)))))))))
+    st.ghost["solver"] = {"previous_iterate": z, "converged_exit": conv, "guess": g, "function_at_previous_iterate": Fz}
+    return rref
+
+
+FPI_AT_CALL = CalleeContract(S + "fixed_point_iteration", _fpi_at_charnock_call,
+                             note="contract proved above (instance lower,default): preconditions / function hypothesis are call-site obligations, postconditions assumed")
+
+
+def _p_charnock(inst):
+    def p(mk):
+        n = mk.size("n")
+        d = {"speed": mk.array("U", (n,), "xreal")}
+        if inst == "constants_given":
+            d.update({"charnock_constant": mk.real("alpha"), "viscous_constant": mk.real("c_visc")})
+        return d
+    return p
+
+
+def _charnock_F(U, z, alpha, c):
+    """alpha u*^2 / g + c nu / u* (viscous term only for u* > 0) with u* = kappa U / ln(10 / z)"""
+    ustar = _T.div(_T.mul(KAPPA, U), _T.uf("log", _T.div(10, z)))
+    return _T.add(_T.div(_T.mul(alpha, _T.mul(ustar, ustar)), GRAV), _T.ite(_T.cmp(">", ustar, 0), _T.div(_T.mul(c, NU_AIR), ustar), Fraction(0)))
+
+
+class _NativeCharnock:
+    def __init__(self, result, calls):
+        self.result, self.calls = result, calls
+
+    def __repr__(self):
+        return f"z0={self.result!r} function_calls={len(self.calls)}"
+
+
+def _charnock_native_call(kwargs, inst):
+    """the real function, with the solver it calls wrapped so that the calls of the iterated function are recorded"""
+    import numpy as np
+    import warnings
+    from ocean_science_utilities.wavephysics import roughness as Rm
+    calls, orig = [], Rm.fixed_point_iteration
+
+    def solver(function, guess, *args, **kw):
+        def recording(x):
+            y = function(x)
+            calls.append((np.array(x, dtype="float64", copy=True), np.array(y, dtype="float64", copy=True)))
+            return y
+        return orig(recording, guess, *args, **kw)
+    Rm.fixed_point_iteration = solver
+    try:
+        with warnings.catch_warnings():
+            warnings.simplefilter("ignore")
+            res = Rm.charnock_roughness_length_from_u10(**kwargs)
+    finally:
+        Rm.fixed_point_iteration = orig
+    return _NativeCharnock(np.asarray(res, dtype="float64"), calls)
+
+
+def _native_charnock_converged(a, R):
+    import numpy as np
+    U = np.asarray(a.speed, dtype="float64")
+    ok_in = ~np.isnan(U)
+    if not R.calls or np.isnan(R.result[ok_in]).any():
+        return True                              # not the converged exit
+    alpha = float(a.charnock_constant) if "charnock_constant" in a else 0.012
+    c = float(a.viscous_constant) if "viscous_constant" in a else 0.0
+    z = R.calls[-1][0]
+    with np.errstate(all="ignore"):
+        us = 0.4 * U / np.log(10.0 / z)
+        F = alpha * us ** 2 / 9.81 + np.where(us > 0, c * 1.48e-5 / us, 0.0)
+    ok = _n_test(R.result, z, 1e-4, 1e-4) & np.isclose(R.result, _n_clamp(F, z, (0, np.inf)), rtol=1e-9, atol=0)
+    return bool(np.all(ok[ok_in]))
+
+
+def _charnock_converged(a, r):
+    if isinstance(r, _NativeCharnock):
+        return _native_charnock_converged(a, r)
+    sol = a._ghost["solver"]
+    z, conv = sol["previous_iterate"], sol["converged_exit"]
+    alpha = a.charnock_constant if "charnock_constant" in a else Fraction(12, 1000)
+    c = a.viscous_constant if "viscous_constant" in a else Fraction(0)
+    rc = _cells_of(a._snap, a._result_raw)
+    atol, rtol = CFG_DEFAULT["atol"], CFG_DEFAULT["rtol"]
+
+    def cell(e):
+        U, ze, x = a.speed[e], z.get((e,)), rc(e)
+        return implies(notnan(U), And(notnan(ze), _conv_test(x, ze, atol, rtol),
+                                      eq(x, _clamp(_charnock_F(valof(U), valof(ze), alpha, c), valof(ze), (0, _T.INF)))))
+    return implies(conv, forall(0, a.speed.n, cell))
+
+
+def _charnock_missing(a, r):
+    if isinstance(r, _NativeCharnock):
+        import numpy as np
+        return bool(np.isnan(r.result[np.isnan(np.asarray(a.speed, dtype="float64"))]).all())
+    rc = _cells_of(a._snap, a._result_raw)
+    return forall(0, a.speed.n, lambda e: implies(isnan(a.speed[e]), isnan(rc(e))))
+
+
+# the relation itself: charnock_roughness_length(u*) cell by cell (numpy input; missing friction velocity -> missing roughness)
+def _p_relation(mk):
+    n = mk.size("n")
+    return {"friction_velocity": mk.array("ustar", (n,), "xreal"), "charnock_constant": mk.real("alpha"), "viscous_constant": mk.real("c_visc")}
+
+
+def _relation_post(a, r):
+    if not is_symbolic(a.charnock_constant):
+        import numpy as np
+        u, z = np.asarray(a.friction_velocity, dtype="float64"), np.asarray(r, dtype="float64")
+        with np.errstate(all="ignore"):
+            ref = a.charnock_constant * u ** 2 / 9.81 + np.where(u > 0, a.viscous_constant * 1.48e-5 / u, 0.0)
+        return bool(np.allclose(z, ref, rtol=1e-12, atol=0, equal_nan=True))
+    rc = _cells_of(a._snap, a._result_raw)
+
+    def cell(e):
+        u = a.friction_velocity[e]
+        uv = valof(u)
+        ref = _T.add(_T.div(_T.mul(a.charnock_constant, _T.mul(uv, uv)), GRAV), _T.ite(_T.cmp(">", uv, 0), _T.div(_T.mul(a.viscous_constant, NU_AIR), uv), Fraction(0)))
+        return And(iff(isnan(u), isnan(rc(e))), implies(notnan(u), eq(valof(rc(e)), ref)))
+    return forall(0, a.friction_velocity.n, cell)
+
+
+charnock_relation = Contract(
+    R + "charnock_roughness_length", params=_p_relation,
+    requires=[("dims", lambda a: _len(a.friction_velocity) >= 0)],
+    ensures=[("alpha_ustar_squared_over_g_plus_viscous_term_for_positive_ustar_and_missing_iff_missing", _relation_post)],
+    witness=[lambda: ("", {"friction_velocity": __import__("numpy").array([0.0, -0.2, 0.01, float("nan"), 0.35, 2.0]), "charnock_constant": 0.0185, "viscous_constant": 0.11})],
+)
+
+
+def _charnock_witnesses():
+    import numpy as np
+    nan = float("nan")
+    U = np.array([0.1, 3.0, nan, 12.0, 33.0, 80.0, nan])
+    return [("default_constants", {"speed": U}),
+            ("constants_given", {"speed": U, "charnock_constant": 0.0185, "viscous_constant": 0.11}),
+            ("constants_given", {"speed": np.array([nan, 7.5]), "charnock_constant": 0.005, "viscous_constant": 0.0}),
+            ("constants_given", {"speed": np.linspace(0.1, 80.0, 50), "charnock_constant": 0.04, "viscous_constant": 0.11})]
+
+
+CH_INST = [("constants_given", _p_charnock("constants_given")), ("default_constants", _p_charnock("default_constants"))]
+charnock_from_u10 = Contract(
+    R + "charnock_roughness_length_from_u10", instances=CH_INST,
+    requires=[("nonempty", lambda a: _len(a.speed) >= 1), ("wind_speeds_nonnegative_or_missing", lambda a: forall(0, _len(a.speed), lambda e: Or(isnan(a.speed[e]), valof(a.speed[e]) >= 0)))],
+    ensures=[("converged_solver_exit_returns_the_charnock_relation_at_a_point_within_the_tolerances_of_the_result", _charnock_converged),
+             ("missing_wind_speeds_give_missing_roughness", _charnock_missing)],
+    callees={FPI_AT_CALL.target: FPI_AT_CALL},
+    options={"native_call": _charnock_native_call},
+    witness=[(lambda k=k: _charnock_witnesses()[k]) for k in range(4)],
+    label="charnock_roughness_length_from_u10[ndarray]",
+)
+
+
 # ------------------------------------------------------------------ bounded: Charnock implicit equation on the real functions
 def _bounded_charnock(tier, seed):
     import warnings
@@ -417,8 +910,14 @@ def _bounded_janssen(tier, seed):
 
 BOUNDED = [Bounded("janssen.stress_balance.compiled", _bounded_janssen, "NaN-or-positive and closure of the stress balance at the returned roughness"),
            Bounded("charnock.implicit_equation", _bounded_charnock, "residual of the implicit Charnock equation at the returned roughness; NaN handling; monotonicity")]
-CONTRACTS = [drag, wu, charnock_point, estimate_point, stress_balance, total_stress, estimate_wiring]
+CONTRACTS = [drag, wu, charnock_point, estimate_point, stress_balance, total_stress, estimate_wiring, fixed_point, charnock_relation, charnock_from_u10]
 TRUSTED = ["A-table: exp(x) > 0; sqrt(x) > 0 for x > 0; log is an uninterpreted function (formula contracts are syntactic in log)",
-           "np.nan is an opaque non-real value in the model (np.isnan of a real is False: NaN *inputs* are outside the real model and are sampled in the bounded stand-in)"]
-EXPLANATION = ("formula fragments and the NaN-or-positive exit contract of the Janssen estimate are proved; the Charnock fixed point "
-               "(fixed_point_iteration: xarray, module-global counter, f-string logging) is outside the subset: bounded residual check on the real functions")
+           "np.nan is an opaque non-real value in the model of the scalar contracts; the solver / Charnock contracts use possibly-NaN cells (value + missing flag, IEEE propagation, "
+           "comparisons with NaN false); infinities are not modelled (standing assumption: every real other than the literal np.inf is finite; the solver contract's precondition "
+           "`guess_cells_are_finite_or_missing` is therefore trivially true symbolically and a real precondition of the executable twin)",
+           "fixed_point_iteration: the iterated function is an arbitrary array function with the single hypothesis NaN cell in => NaN cell out (checked at the Charnock call site for "
+           "an arbitrary argument array); arrays must be non-empty (np.nanmax of an empty array raises ValueError in the first iteration)",
+           "Sum lemma schema `monotone` (pyvc/terms.py, contract option sum_monotone): pointwise ordered terms give ordered sums, strictly if strict at one index of the range",
+           "logging calls and the f-string log messages have no modelled effect"]
+EXPLANATION = ("formula fragments, the NaN-or-positive exit contract of the Janssen estimate, the stress balance wiring, the exit contract of the fixed-point solver (numpy input) and its use by "
+               "charnock_roughness_length_from_u10 are proved; convergence of the iterations, the residual at the returned roughness and DataArray / scalar inputs are bounded checks on the real functions")
